@@ -20,10 +20,10 @@ theorem noSp_member (o p : Node) (sp : Span) : noSp (.member o p sp) := by simp 
 theorem winU_win {lo hi k0 k1 : Nat} {Δ : Env} (h : WinU lo hi k0 k1 Δ) (h1 : lo ≤ k0) (h2 : hi ≤ k1) : Win lo k1 Δ := by
   intro p hp; have := h p hp; omega
 
-theorem noBlk_ddCallee (m : String) (sp : Span) : noBlk (ddCallee m sp) = true := by
+theorem noBlk_ddCalleeE (m : String) (sp : Span) : noBlk (ddCallee m sp) = true := by
   unfold ddCallee
   rw [noBlk_eq]
-  simp only [isBlockNode, kids, noBlkL_cons, noBlkL_nil, noBlk_ident, noBlk_pname]
+  simp only [isBlockNode, kids, noBlkL_cons, noBlkL_nil, noBlk_identE, noBlk_pnameE]
   rfl
 
 theorem ddCall_BRg_inv {first c'' : Node} {args : List Node} {m : String} {sp : Span}
@@ -33,7 +33,7 @@ theorem ddCall_BRg_inv {first c'' : Node} {args : List Node} {m : String} {sp : 
   obtain ⟨c', as', rfl, hc, has⟩ := h.call_inv
   obtain ⟨a0, rest, rfl, ha0, hrest⟩ := BRgL.cons_inv has
   obtain ⟨f'', rfl, hf⟩ := ha0.arg_inv
-  rw [BRg_noBlk (noBlk_ddCallee m sp) hc, BRgL_noBlk hnb hrest]
+  rw [BRg_noBlk (noBlk_ddCalleeE m sp) hc, BRgL_noBlk hnb hrest]
   exact ⟨f'', rfl, hf⟩
 
 /-- a replacement inside a hook call with its hoisted operands touches only the first argument and the
